@@ -1231,7 +1231,7 @@ func main() {
 	}
 
 	// 3. random requests of every kind and version, expressible ones and the known gaps
-	for i := 0; i < 2500*mult; i++ {
+	for i := 0; i < 8000*mult; i++ {
 		v := 1 + g.r.Intn(5)
 		gap := g.r.Intn(5) == 0
 		switch g.r.Intn(10) {
